@@ -167,3 +167,37 @@ Proof. vm_compute. reflexivity. Qed.
 Example single_quote_attr_is_an_error :
   parse (fun _ => false) [60;75;32;105;61;39;49;39;62;120;60;47;75;62] = Fail ValueError.
 Proof. vm_compute. reflexivity. Qed.
+
+(* C11 (d): a document whose first element is opened but whose closing tag has not been written yet
+   (a write cut short) never parses: the reader cannot finish an element without finding its end tag. *)
+Section Truncation.
+  Variable uw : Z -> bool.
+
+  Theorem truncated_fails doc name raw tag_end :
+    parse_tag uw (strip doc) = OK (name, raw, tag_end) ->
+    text_eqb (slice (strip doc) (tag_end - 2) tag_end) [SLASH; GT] = false ->
+    index_from ([LT; SLASH] ++ name ++ [GT]) (strip doc) tag_end = None ->
+    forall d, parse uw doc <> Done d.
+  Proof.
+    intros Ht Hsc Hidx d. unfold parse.
+    destruct doc as [|c0 t0].
+    { cbn in Ht. discriminate. }
+    cbn [parse_rec length]. destruct (strip (c0 :: t0)) as [|c x'] eqn:Ex.
+    { cbn in Ht. discriminate. }
+    assert (Hlt : negb (c =? LT) = false).
+    { unfold parse_tag in Ht. destruct (negb (c =? LT)); [discriminate|reflexivity]. }
+    rewrite Hlt. unfold first_element. rewrite Ht.
+    destruct raw as [raw|].
+    - destruct (parse_attrs uw (S (length (c :: x'))) raw []) as [a| |]; try discriminate.
+      rewrite Hsc. unfold find_end_of_element. rewrite Hidx. discriminate.
+    - rewrite Hsc. unfold find_end_of_element. rewrite Hidx. discriminate.
+  Qed.
+
+  Theorem truncated_ksr_fails doc i name raw tag_end :
+    index_from KSR_OPEN doc 0 = Some i ->
+    parse_tag uw (strip (skipn i doc)) = OK (name, raw, tag_end) ->
+    text_eqb (slice (strip (skipn i doc)) (tag_end - 2) tag_end) [SLASH; GT] = false ->
+    index_from ([LT; SLASH] ++ name ++ [GT]) (strip (skipn i doc)) tag_end = None ->
+    forall d, parse_ksr uw doc <> Done d.
+  Proof. intros Hi Ht Hsc Hidx d. unfold parse_ksr. rewrite Hi. eapply truncated_fails; eauto. Qed.
+End Truncation.
